@@ -19,6 +19,9 @@ def edge_atom(b, src, label, depth=12, named_leaf=False):
     if t["k"] != "switch":
         return None
     e = b.expr(t["d"], depth, named_leaf)
+    if isinstance(e, tuple) and e[0] == "local" and len([x for x in b.defs().get(e[1], []) if x[0] != "pst"]) > 1:
+        # several definitions (an inlined helper's result copied to each of its return sites): take the one that reaches this block
+        e = b.expr_at(t["d"], src, None, depth, named_leaf)
     if e[0] == "discr":
         # two-variant enums (Option / Result / ControlFlow): name the `otherwise` arm by its discriminant
         if label == "otherwise" and len(t["cases"]) == 1 and int(t["cases"][0][0]) in (0, 1):
@@ -141,9 +144,37 @@ def roots(e):
     return {x for x in leaves(e) if x[0] in ("arg", "local")}
 
 
+def alias_closure(b, roots):
+    """a named local that is a plain copy of another value (`let node = c;`, a loop's `break c`) stands for the same thing: add the named roots of
+    its (single) definition"""
+    out = set(roots)
+    frontier = set(roots)
+    for _ in range(4):
+        nxt = set()
+        for x in frontier:
+            if x[0] != "local":
+                continue
+            ds = [d for d in b.defs().get(x[1], []) if d[0] == "st"]
+            if not ds or len(ds) > 3:
+                continue
+            for d in ds:
+                rv = b.blocks[d[1]]["st"][d[2]]["rv"]
+                if rv["k"] == "use" and op_place(rv["o"][0]) is not None and not op_place(rv["o"][0])["p"]:
+                    pl = op_place(rv["o"][0])
+                    e2 = b.place_expr(pl, 8, named_leaf=True)
+                    for y in leaves(e2):
+                        if y[0] in ("arg", "local") and y not in out:
+                            nxt.add(y)
+        out |= nxt
+        frontier = nxt
+        if not frontier:
+            break
+    return out
+
+
 def named_roots(b, o_or_e, is_operand=True):
     e = b.expr(o_or_e, 12, named_leaf=True) if is_operand else o_or_e
-    return {x for x in leaves(e) if x[0] in ("arg", "local")}
+    return alias_closure(b, {x for x in leaves(e) if x[0] in ("arg", "local")})
 
 
 def map_roots(b, o):
@@ -339,6 +370,22 @@ def visit_once(facts):
                 continue
             n += 1
             h = visit_guard(b, i, None, False, ISV)
+            # the same test as a filter on the edge iterator: `for edge in graph.edges(node).filter(|e| !visited.is_visited(&e.target()))`
+            for (ae, lab, src) in dom_atoms(b, i):
+                if not (isinstance(ae, tuple) and ae[0] == "discr" and lab == 1):
+                    continue
+                for s_ in walk_expr(ae):
+                    if isinstance(s_, tuple) and s_[0] == "call" and last_seg(s_[1]["path"]) == "filter" and len(s_[2]) >= 2:
+                        clo = strip_casts(s_[2][1])
+                        cb = facts.body(clo[1]) if isinstance(clo, tuple) and clo[0] == "agg" and len(clo) > 1 else None
+                        if cb is None:
+                            continue
+                        for _, _, cst in cb.stmts():
+                            if cst["lhs"]["l"] == 0 and not cst["lhs"]["p"]:
+                                re_ = cb.expr({"copy": cst["lhs"]}, 8) if False else (cb.expr(cst["rv"]["o"][0], 8) if cst["rv"]["k"] == "use" else
+                                                                                      ("un", cst["rv"].get("op"), cb.expr(cst["rv"]["o"][0], 8)) if cst["rv"]["k"] == "un" else None)
+                                if isinstance(re_, tuple) and re_[0] == "un" and re_[1] == "Not" and call_atom(re_[2], ISV) is not None:
+                                    h = list(h) + [("filter-closure", src)]
             o.check(b, "relax#%d" % n, t["line"], len(h) >= 2,
                     "heap push dominated by !is_visited(node) (popped node not settled) and !is_visited(next) (target not settled)",
                     "dijkstra relaxes an edge without both settled-tests (`visited.is_visited(&node)`, `visited.is_visited(&next)`) "
@@ -649,7 +696,8 @@ def limit(facts):
             exits = []
             for i, j, st in b.stmts():
                 rv = st["rv"]
-                if st["lhs"]["l"] == 0 and rv["k"] == "agg" and rv["variant"] == "Err" and rv["o"]:
+                # Err(..IxLimit) built anywhere in the body (directly into the return place, or into a temporary that `?` propagates)
+                if not st["lhs"]["p"] and rv["k"] == "agg" and rv["variant"] == "Err" and rv["o"]:
                     e = b.expr(rv["o"][0], 3)
                     if e[0] == "agg" and e[2].endswith("IxLimit"):
                         exits.append((i, st))
@@ -658,9 +706,12 @@ def limit(facts):
                 at = [(e, truth, src) for (e, truth, src) in dom_atoms(b, xi) if isinstance(e, tuple) and e[0] == "bin" and truth is True]
                 usz = [src for (e, _, src) in at if e[1] == "Ne" and has_call(e[2], ("max",)) and isinstance(e[3], tuple)
                        and (e[3][0] == "const" or (e[3][0] == "un" and e[3][1] == "Not" and e[3][2][0] == "const"))]
-                eqs = [(src, e) for (e, _, src) in at if e[1] == "Eq" and (has_call(e[2], ("end",)) or has_call(e[3], ("end",)))]
+                # the reserved index: NodeIndex::end() / EdgeIndex::end(), or <Ix as IndexType>::max() itself (end() is max() wrapped)
+                def is_endval(x):
+                    return has_call(x, ("end",)) or (has_call(x, ("max",)) and not has_call(x, ("len",)))
+                eqs = [(src, e) for (e, _, src) in at if e[1] == "Eq" and (is_endval(e[2]) != is_endval(e[3]))]
                 if usz and eqs:
-                    other = eqs[0][1][3] if has_call(eqs[0][1][2], ("end",)) else eqs[0][1][2]
+                    other = eqs[0][1][3] if is_endval(eqs[0][1][2]) else eqs[0][1][2]
                     from_len = has_call(other, ("len",)) and ("field", field) in leaves(other)
                     good_exit = (xi, usz[0], from_len)
             o.check(b, "limit-exit", b.line, good_exit is not None, "Err(..IxLimit) exit dominated by max()!=!0 and end()==new_index",
